@@ -131,7 +131,7 @@ func (e *env) releaseAll()                      { e.relOnce.Do(func() { close(e.
 type vtask struct {
 	e       *env
 	id      int
-	beh     string // ret | block | panic | spin
+	beh     string // ret | err | block | panic | spin
 	runs    int32
 	marked  int32
 	fin     int64 // sequence number at completion (0 = not finished)
@@ -188,6 +188,9 @@ func (t *vtask) Run(ctx context.Context) error {
 		}
 	case "panic":
 		panic("verif task panic")
+	case "err":
+		// a task that fails the ordinary way (non-nil error, no panic): still executed exactly once
+		return errVerifTask
 	case "spin":
 		for i := 0; i < 200; i++ {
 			runtime.Gosched()
@@ -195,6 +198,8 @@ func (t *vtask) Run(ctx context.Context) error {
 	}
 	return nil
 }
+
+var errVerifTask = fmt.Errorf("verif task failed")
 
 func (e *env) newTask(beh string) *vtask {
 	e.mu.Lock()
@@ -631,9 +636,14 @@ func concCase(c conf, st *stats) string {
 				sp.beh = "panic"
 			case x < blkPct+panPct+15:
 				sp.beh = "spin"
+			case x < blkPct+panPct+25:
+				sp.beh = "err"
 			}
 			if r.Intn(100) < dlPct {
 				sp.dlUs = r.Range(20, 3000)
+				if r.Intn(100) < 12 {
+					sp.dlUs = -1 // a deadline that has already passed when Submit is called
+				}
 			}
 			plans[s] = append(plans[s], sp)
 		}
@@ -653,6 +663,8 @@ func concCase(c conf, st *stats) string {
 				cancel := func() {}
 				if sp.dlUs > 0 {
 					ctx, cancel = context.WithTimeout(ctx, time.Duration(sp.dlUs)*time.Microsecond)
+				} else if sp.dlUs < 0 {
+					ctx, cancel = context.WithTimeout(ctx, 0)
 				}
 				t.inv = e.next()
 				err := p.Submit(ctx, t)
